@@ -158,6 +158,9 @@ pub fn install_quiet_panic_hook() {
         } else {
             "<non-string panic>".to_string()
         };
+        if std::env::var("SIM_PANIC_VERBOSE").is_ok() {
+            eprintln!("panic: {} @ {}", msg, loc);
+        }
         LAST_PANIC.with(|p| *p.borrow_mut() = Some(format!("{} @ {}", msg, loc)));
     }));
 }
